@@ -301,11 +301,12 @@ def exact(fb, rep):
         else:
             rep.ok('R12.4', key, f.where(), 'exact path')
     # positive controls
-    ctl_real = sum(1 for f in funcs_in(fb, REAL) for n in f.nodes if n.k == 'CallExpr' and n.short == 'atof')
+    # the floating-point readers convert through atof / strtod (F141 replaced the atof calls of the MPS reader by one strtod in MPSreadValue())
+    ctl_real = sum(1 for f in funcs_in(fb, REAL) for n in f.nodes if n.k == 'CallExpr' and n.short in ('atof', 'strtod'))
     ctl_unit = any(n.k == 'CallExpr' and n.short == 'atof' for f in fb.funcs.values() if f.name == 'verif_ctl::parses_with_atof' for n in f.nodes)
-    if ctl_real < 3 or not ctl_unit:
+    if ctl_real < 2 or not ctl_unit:
         raise AnalysisBroken('R12.4 positive controls did not fire (real readers: %d atof calls, control unit: %s)' % (ctl_real, ctl_unit))
-    rep.ok('R12.4', 'control|atof-in-real-readers', REAL, '%d atof calls found in the floating-point readers; control unit fires' % ctl_real, nontrivial=False)
+    rep.ok('R12.4', 'control|atof-in-real-readers', REAL, '%d atof / strtod calls found in the floating-point readers; control unit fires' % ctl_real, nontrivial=False)
     # SPxLPBase<Rational> entry points that take GMP data decide on the rational itself
     for f in fb.methods_of('soplex::SPxLPBase<Rational>'):
         bad = [n for n in f.nodes if n.k == 'CallExpr' and n.short in ('__gmpq_get_d', 'mpq_get_d')]
